@@ -172,6 +172,9 @@ func (c *ChangesCursor) Next() error {
 			c.eof = true
 			return nil
 		}
+		if err != nil {
+			return fmt.Errorf("diff: %w", err)
+		}
 		if de.NewValue != nil {
 			row, _ := de.NewValue.(*v1proto.Row)
 			if row == nil || row.Deleted {
